@@ -27,6 +27,8 @@ L1_TABLE = [
     (r"SocksRequest::<T>::write_v5", r"slice::len", "methods is the fixed array returned by supported_methods (<= 2 entries)", "supported_methods_fixed"),
     (r"frames::Frame::make_header$", r"Bytes::len", "body of a UDP datagram or of a u16-length-prefixed frame: <= 65535 bytes by construction", None),
     (r"frames::Frame::make_header$", r"BytesMut::len", "address attribute is at most 2 + 255 + 2 bytes", None),
+    (r"frames::encode_address$", r"len", "host names in Frame.addr are at most 253 bytes (anchor frame_host_bounded: every source of the field is an IP address, "
+     "a validated session target or a decoder that bounds the name)", "frame_host_bounded"),
     (r"fragment::MakeFragments::<T>::new$", r"div_ceil", "fragment count <= 127 is checked by the only caller (anchor mtu_guard)", "mtu_guard"),
 ]
 
